@@ -18,6 +18,8 @@ REAL body of each converter, with the class replaced by a recording constructor:
 import inspect
 import typing
 
+import z3
+
 from pyvc import core, types as T
 from pyvc.core import SAny, cur
 from pyvc.heap import Obj
@@ -28,6 +30,10 @@ from pyvc.values import SymCallable
 # constructor parameter -> attribute of the native type (where the names differ)
 ALIAS = {("pandas_engine", "Sparse", "dtype"): "subtype", ("pandas_engine", "ArrowBinary", "length"): "byte_width",
          ("polars_engine", "Array", "width"): None}  # `width`: deprecated spelling of `shape` (polars), not a parameter of its own
+
+
+# constructor parameter offered by the native type through (count attribute, item accessor) as well as through the attribute itself
+ACCESSORS = {("pandas_engine", "ArrowStruct", "fields"): ("num_fields", "field")}
 
 
 def _samples():
@@ -139,6 +145,18 @@ def _contract(eng, cls, natives, oracle):
             native_vals = {id(native.attrs[x]): x for x in attrs if x in native.attrs}
             for p, attr in oracle.items():
                 read = attr in native.attrs
+                acc = ACCESSORS.get((eng, cls.__name__, p))
+                if acc is not None and not read and p in passed:
+                    # the native type offers the parameter through an indexed accessor as well: [native.<item>(i) for i in range(native.<count>)]
+                    from pyvc.values import SymSeq
+
+                    v = passed[p]
+                    count = native.attrs.get(acc[0])
+                    memo = cur().ghost.get("range_len_of_opaque", {})
+                    n = memo.get(count.z.get_id()) if isinstance(count, core.SAny) else None
+                    out[f"forwards_{p}"] = isinstance(v, SymSeq) and v.name == "comp(range)" and n is not None \
+                        and bool(z3.simplify(v.slen().z == z3.If(n.z > 0, n.z, 0)) == True)  # noqa: E712
+                    continue
                 if p not in passed:
                     # omitted: only acceptable on a path that established the native attribute is None
                     ok = read and native.attrs[attr] is None
